@@ -81,7 +81,7 @@ let sx_outcome h (o : outcome) : Sx.t =
   | Found (rid, ps) ->
       let rid = int_of_nat rid in
       let (_, _, _, r) = List.find (fun (_, x, _, _) -> x = rid) h.accepted in
-      let ps = (s_route, render_route r) :: List.filter (fun (k, _) -> k <> s_route) ps in
+      let ps = Router.deliver r ps in      (* the reserved parameter, as the model sets it (C02_reserved_route) *)
       Sx.L (Sx.A "found" :: sx_int (attempt_of h rid) :: sx_params ps)
 
 (* routes registered for method mi, as (rid, route), for the declarative spec *)
